@@ -18,7 +18,7 @@ PROPS = {
     "C01": {
         "level": "exploration",
         "jobs": [
-            {"test": "TestC01", "kind": "rapid", "quick": 100000, "thorough": 3000000},
+            {"test": "TestC01", "kind": "rapid", "quick": 100000, "thorough": 1500000},
             {"test": "TestC01Big", "kind": "enum", "tier": "thorough", "shards": 10},
         ],
         "floors": {"lenbytes=2": ("job:TestC01", 0.01), "lenbytes=3": ("job:TestC01", 0.003),
